@@ -23,7 +23,7 @@ func nestedOracle(c *Case, obs []CallObs) (string, string) {
 	}
 	outer := &builder{name: "the outer graph", frozen: -1, touch: -1, kind: "graph"}
 	inners := map[string]*builder{}
-	attached := map[string]bool{} // inner values held by an accepted node of the outer graph
+	attached := map[string][]Call{} // inner values held by accepted nodes of the outer graph: one Compile, with the node's options, per node
 	var ids []string
 	add := func(b *builder, k Call, o CallObs, i int) {
 		b.calls, b.obs, b.at = append(b.calls, k), append(b.obs, o), append(b.at, i)
@@ -87,7 +87,7 @@ func nestedOracle(c *Case, obs []CallObs) (string, string) {
 			}
 			add(outer, node, o, i)
 			if o.K == "ok" {
-				attached[k.ID] = true
+				attached[k.ID] = append(attached[k.ID], Call{Op: "compile", Trigger: k.Trigger, MaxSteps: k.MaxSteps})
 			}
 		case "inner":
 			in := inners[k.ID]
@@ -105,18 +105,25 @@ func nestedOracle(c *Case, obs []CallObs) (string, string) {
 			if sig, what := direct(outer, k, o, i); sig != "" {
 				return sig, what
 			}
+			if k.Op == "compile" && o.K == "err" && len(attached) > 0 {
+				// the error may be a child's (its own cycle in its node's all-predecessor mode, …): the converse rules
+				// of spec.go ("rejected although …") speak about the outer graph's own declarations only
+				o.Cls = "EChild"
+			}
 			add(outer, *k, o, i)
 			if k.Op == "compile" && o.K == "ok" {
 				if outer.frozen < 0 {
 					outer.frozen = i
 				}
-				// the children have been compiled with their nodes' options (none)
+				// the children have been compiled with their nodes' options
 				for _, id := range ids {
-					if in := inners[id]; attached[id] {
+					if in := inners[id]; len(attached[id]) > 0 {
 						if in.kind == "chain" && in.touch >= 0 {
 							return "modified-after-compile", fmt.Sprintf("Compile at %d succeeded although %s, a node of the graph, was appended to (call %d) after the Compile at %d had compiled it", i, in.name, in.touch, in.frozen)
 						}
-						add(in, Call{Op: "compile"}, ok, i)
+						for _, vc := range attached[id] {
+							add(in, vc, ok, i)
+						}
 						if in.frozen < 0 {
 							in.frozen = i
 						}
